@@ -202,6 +202,27 @@ fn main() {
 			let lim = if narrow { Limits::closure().states(if thorough { 60_000_000 } else { 6_000_000 }).wall_secs(if thorough { 900 } else { 25 }) } else { Limits::depth(12) };
 			h.go(&FirstIsV0(sys), &lim, false);
 		}
+		// neighbouring floats: a retest one ulp below / above an extreme is a different value, not a tie
+		for (tag, x) in [("1.0", 1.0 as V), ("150.0", 150.0 as V)] {
+			let up = V::from_bits(x.to_bits() + 1);
+			let dn = V::from_bits(x.to_bits() - 1);
+			let syms: Vec<V> = vec![x, up, dn, x / 2.0, x * 2.0];
+			let sys = MSys {
+				name: format!("{name}/depth/ulp-neighbours-of-{tag}"),
+				spec: spec(name),
+				params: vec![Params::NN(1, 1), Params::NN(1, 2), Params::NN(2, 1), Params::NN(2, 2)],
+				v0s: vals(&syms[..4]),
+				alphabet: vals(&syms),
+				mk_ref: mk_ref(name),
+				shape: Shape::Free,
+				span,
+				keyed: false,
+				positions: None,
+				check_peek: false,
+				extra: None,
+			};
+			h.go(&FirstIsV0(sys), &Limits::depth(if thorough { 9 } else { 7 }).wall_secs(300), true);
+		}
 		// many (left, right) pairs, flat base with deviations, streams longer than 2 * 255
 		let maxp = (PeriodType::MAX as usize).min(255);
 		let mut pairs = vec![];
